@@ -383,6 +383,8 @@ def r11(tree, rep, tier):
 
 
 def run(tree, rep, tier):
+    from .. import round9 as _r9
+    _r9.be4_codec_unsigned(tree, rep, "C10.R13")
     from .. import itermut
     itermut.check(tree, rep, "C10.R12", ("src/wormhole/_dilation/connection.py", "src/wormhole/_dilation/outbound.py", "src/wormhole/_dilation/inbound.py",
                                          "src/wormhole/_dilation/manager.py", "src/wormhole/_dilation/subchannel.py"),
@@ -429,3 +431,5 @@ MUTANTS.append(Mutant("abandon-forgets-connection", MGR, "        self._connecti
                       "        self._connection.disconnect()  # let connection_lost do cleanup\n        self._connection = None", "C10.R11",
                       "two cooperating sites: abandon clears _connection, _stop_using_connection returns early when it is None",
                       also=((MGR, "        # the connection is already lost by this point\n", "        # the connection is already lost by this point\n        if self._connection is None:\n            return\n"),)))
+
+MUTANTS.append(Mutant("signed-be4-decoder", "src/wormhole/_dilation/encode.py", "    return struct.unpack(\">L\", b)[0]", "    return struct.unpack(\">l\", b)[0]", "C10.R13", "seed C10-21"))
